@@ -471,6 +471,99 @@ def _fresh_fork(fn, arg):
         return pool.apply(fn, (arg,))
 
 
+# ---------------------------------------------------------------------------------------------------
+# E2: limits of whole circuits across operation sequences (evaluate at 0 / inf, modify a nested element in place, evaluate again)
+
+from vf import circuit_history as H
+
+LIMHIST_SUBJECTS = {
+    "R(RC)(RL)": {"route": "cdc", "tree": ("S", ("L",), ("P", ("L",), ("L",)), ("P", ("L",), ("L",))),
+                  "fills": [G.entry("R", {"R": 100.0}), G.entry("R", {"R": 200.0}), G.entry("C", {"C": 1e-6}), G.entry("R", {"R": 50.0}), G.entry("L", {"L": 1e-3})],
+                  "muts": [{"leaf": 1, "kind": "values", "alt": {"R": 50.0}}, {"leaf": 3, "kind": "values", "alt": {"R": 75.0}},
+                           {"leaf": 2, "kind": "values", "alt": {"C": 1e-5}}]},
+    "R(RQ)": {"route": "objects", "tree": ("S", ("L",), ("P", ("L",), ("L",))),
+              "fills": [G.entry("R", {"R": 10.0}), G.entry("R", {"R": 200.0}), G.entry("Q", {"Y": 1e-4, "n": 0.8})],
+              "muts": [{"leaf": 0, "kind": "values", "alt": {"R": 25.0}}, {"leaf": 1, "kind": "values", "alt": {"R": 80.0}},
+                       {"leaf": 2, "kind": "values", "alt": {"n": 0.6}}]},
+}
+LIMHIST_OBS = {"f=0": [0.0], "f=inf": [math.inf], "f=0,1,inf": [0.0, 1.0, math.inf]}
+
+
+def _limhist_observations(st, reference: bool):
+    np = st["np"]
+
+    def mk(freqs):
+        def f(c):
+            try:
+                if not reference:
+                    return ("ok", tuple(complex(z) for z in c.get_impedances(np.array(freqs))))
+                # expected: the finite-frequency values have converged at 1e-30 / 1e30 Hz (checked against 1e-40 / 1e40)
+                near = [1e-30 if x == 0 else 1e30 if math.isinf(x) else x for x in freqs]
+                far = [1e-40 if x == 0 else 1e40 if math.isinf(x) else x for x in freqs]
+                a = c.get_impedances(np.array(near))
+                b = c.get_impedances(np.array(far))
+                if not all(abs(x - y) <= 1e-9 * (abs(x) + 1.0) for x, y in zip(a, b)):
+                    return ("not-converged",)
+                return ("ok", tuple(complex(z) for z in b))
+            except Exception as ex:
+                return ("error", type(ex).__name__)
+        return f
+    return {k: mk(v) for k, v in LIMHIST_OBS.items()}
+
+
+def _limhist_run(name: str, ops, st, cache={}):
+    subj = LIMHIST_SUBJECTS[name]
+    if name not in cache:
+        cache[name] = H.reference_table(subj["tree"], subj["fills"], subj["muts"], _limhist_observations(st, True))
+        assert all(r[0] == "ok" for t in cache[name].values() for r in t.values()), "limit-history reference did not converge"
+    return H.run_history(lambda: H.ROUTES[subj["route"]](subj["tree"], subj["fills"]), subj["fills"], subj["fills"], subj["muts"],
+                         _limhist_observations(st, False), cache[name], ops, rtol=1e-6, atol=1e-7)
+
+
+def _limhist_violation(name: str, ops, st) -> Optional[dict]:
+    bad, _ = _limhist_run(name, ops, st)
+    if bad is None:
+        return None
+    ops = H.shrink(list(ops)[: bad["step"] + 1], lambda o: _limhist_run(name, o, st)[0] is not None)
+    bad, _ = _limhist_run(name, ops, st)
+    sig = ">".join(("limit" if o[0] == "obs" else "set_values") for o in ops)
+    return {"key": f"limit-history|{sig}", "what": f"circuit {name}: after the operation sequence {ops} the values reported at {bad['op'][1]} are {bad['got']} "
+            f"but the finite-frequency values of the circuit with its current parameters converge to {bad['expected']}",
+            "case": {"part": "limit-history", "subject": name, "ops": [list(o) for o in ops]}, "detail": ""}
+
+
+def _limhist_chunk(arg) -> dict:
+    name, prefix, depth = arg
+    st = setup()
+    subj = LIMHIST_SUBJECTS[name]
+    alpha = [["obs", k] for k in LIMHIST_OBS] + [["tog", k] for k in range(len(subj["muts"]))]
+    n = nobs = 0
+    viols: Dict[str, dict] = {}
+    outcomes: Dict[str, int] = {}
+    nontrivial = []
+    for rest in H.all_sequences(alpha, depth - len(prefix)):
+        ops = list(prefix) + list(rest)
+        if not any(o[0] == "obs" for o in ops):
+            continue
+        n += 1
+        bad, k = _limhist_run(name, ops, st)
+        nobs += k
+        togs = sum(1 for o in ops if o[0] == "tog")
+        o = f"limit-history:{'continuous' if bad is None else 'WRONG'}/{togs} modifications"
+        outcomes[o] = outcomes.get(o, 0) + 1
+        if togs:
+            nontrivial.append(hash((name, repr(ops))))
+        if bad is not None:
+            v = _limhist_violation(name, ops, st)
+            if v is not None:
+                if v["key"] not in viols:
+                    v["count"] = 0
+                    viols[v["key"]] = v
+                viols[v["key"]]["count"] += 1
+    return {"n": nobs, "nontrivial": nontrivial, "outcomes": outcomes, "violations": list(viols.values()), "traces": n, "transitions": n * depth,
+            "samples": [{"limit_history_subject": name, "operations": ops}] if prefix and prefix[0] == ["tog", 0] and prefix[1] == ["obs", "f=0"] else []}
+
+
 def grids(thorough: bool, st) -> Dict[str, List[Tuple[float, ...]]]:
     out = {}
     for sym, C in st["els"].items():
@@ -505,7 +598,9 @@ def run(ctx) -> None:
                 "1e-6..1e9 Hz, numeric vs documented equation with 50-digit adjudication and a conditioning filter; every k-th grid "
                 "point also through to_sympy(substitute=True); all 36 open/short/finite configurations of the general transmission line x "
                 "sub-circuit contents x L, numeric vs symbolic; every skeleton <= 3 leaves over an 8-entry palette, Circuit.to_sympy "
-                "(substitute=True) vs numeric; reported limits at 0 and inf vs converged finite-frequency values. Non-trivial = parameter "
+                "(substitute=True) vs numeric; reported limits at 0 and inf vs converged finite-frequency values (single elements: value sequences; "
+                "whole circuits: every sequence of 4 (5) operations from {evaluate at 0, at inf, at [0,1,inf]; set_values on one of three nested "
+                "elements} vs the converged finite-frequency values of a circuit built with the current parameters). Non-trivial = parameter "
                 "vector differs from the class defaults / a Tlm configuration / a composite circuit.")
     ctx.exhaustive = True
     ctx.assumptions = ["the documented equation is Class._equation (what the docs render and to_sympy returns)",
@@ -547,6 +642,13 @@ def run(ctx) -> None:
         ljobs.append((sym, list(reversed(sel)), False))
         ljobs.append((sym, sel, True))
     ctx.pmap(_limit_job, ljobs, label="limits at 0 and inf (value sequences, fresh process each)", maxtasksperchild=1)
+    # limits of whole circuits over operation sequences
+    depth = 5 if thorough else 4
+    hjobs = []
+    for name, subj in LIMHIST_SUBJECTS.items():
+        alpha = [["obs", k] for k in LIMHIST_OBS] + [["tog", k] for k in range(len(subj["muts"]))]
+        hjobs += [(name, [a, b], depth) for a in alpha for b in alpha]
+    ctx.pmap(_limhist_chunk, hjobs, label=f"circuit limits over operation sequences of length {depth} (evaluate at 0/inf, set_values on a nested element)")
 
 
 def replay(case: dict) -> list:
@@ -571,6 +673,9 @@ def replay(case: dict) -> list:
         return check_tlm(case["cfg"], st)[0]
     if part == "circuit":
         return check_circuit(tup(case["tree"]), case["fill"], st)
+    if part == "limit-history":
+        v = _limhist_violation(case["subject"], [list(o) for o in case["ops"]], st)
+        return [v] if v else []
     if part == "limit-seq":
         seq = [[fl(v) for v in c] for c in case["seq"]]
         res = _fresh_fork(_limit_job, (case["sym"], seq, bool(case.get("same_instance"))))
